@@ -7,6 +7,11 @@ is an INTEGER-linear form in the recorded Green-function values; spec/rel/Check_
 exact fixed point) at every point of a ball, on two k-point meshes (Nmax = 4 and 6) with the measured
 tolerances, together with endpoint symmetry G(i,j,dx) = G(j,i,-dx), invariance under space-group operations,
 inverse scaling under a uniform rate scaling, and (3D) the continuum pole at separations the mesh resolves.
+
+The calculator is also an OBJECT (spec/obj/GFObj.tla: SetRates / Eval / SaveLoad / Copy; lemmas LastInputWins,
+EvalAnswersInstalled model-checked): every path of the TLC state graph (depth 3-4, three inputs of which two share
+their symmetrised jump rates and one is a uniform rescaling) is replayed on a real GFCrystalcalc, and at every Eval
+G at probe points, D and the bias correction must be those of a fresh calculator given only the last input.
 """
 import itertools
 
@@ -156,5 +161,117 @@ def run(ctx):
                 nonuni = len(set(es)) > 1 or N > 1
                 metas.append(("gf|%s|Nmax%d#%d" % (name, Nmax, rep), "Green function on %s, Nmax=%d, data %s" % (name, Nmax, d),
                               {"world": name, "Nmax": Nmax, "data": d}, nonuni))
+    object_histories(ctx, quick, rng, cases, metas)
     rel.run_rel(ctx, cases, metas, shards=8 if quick else 14)
     ctx.sample({"case": metas[0][0], "n_values": len(cases[0]["tensors"]), "asserts": sorted({a["name"] for a in cases[0]["asserts"]})})
+
+
+# ---------------------------------------------------------------------------------- object histories (GFObj.tla)
+
+def history_graph(ctx, ninputs, depth):
+    import os
+    from .. import tlc
+    cfg = """CONSTANTS
+  Inputs = {%s}
+  MaxDepth = %d
+SPECIFICATION Spec
+INVARIANT LastInputWins
+INVARIANT EvalAnswersInstalled
+CHECK_DEADLOCK FALSE
+""" % (", ".join(str(k) for k in range(1, ninputs + 1)), depth)
+    res = tlc.run("GFObj", cfg, workers=4, dump=True, timeout=600)
+    tlc.require_clean(res, "GFObj")
+    ctx.add_model(res)
+    nodes, edges, inits = tlc.parse_dot(res.dot)
+    out = {}
+    for src, dst, lab in edges:
+        out.setdefault(src, []).append((dst, lab))
+    return nodes, out, inits[0]
+
+
+def object_histories(ctx, quick, rng, cases, metas):
+    """Every path of the GFObj.tla state graph on a real GFCrystalcalc: the answers at an Eval are those of a fresh
+    calculator given only the last SetRates input (G at probe points, D, bias correction)."""
+    import copy
+    import h5py
+    from onsager import GFcalc
+    from .. import tlc
+    nodes, out, root = history_graph(ctx, 3, 3 if quick else 4)
+    wl = [("polarrect", 1, 2), ("fccoct", 1, 1)] if quick else [("polarrect", 1, 2), ("fccoct", 1, 1), ("hcpoct", 1, 1),
+                                                                 ("squarelieb", 1, 1), ("fcc", 0, 1), ("rect2site", 0, 2)]
+    f = h5py.File("vf_c10_mem.h5", "w", driver="core", backing_store=False)
+    nsave = [0]
+    for name, chem, shell in wl:
+        v = calc.vacancy(name, chem, shell, 1, rng)
+        crys, sitelist, jn = v.crys, v.sitelist, v.jumpnetwork
+        s = calc.Setup()
+        s.Nsite, s.Njump = len(sitelist), len(jn)
+        inv = {i: ci for ci, cl in enumerate(sitelist) for i in cl}
+        d1 = even_data(s, rng)
+        # input 2: other site energies with the SAME symmetrised jump rates; input 3: input 1 with all rates x 8
+        a = [2 * rng.randint(0, 1) for _ in range(s.Nsite)]
+        if s.Nsite > 1 and len(set(a)) == 1:
+            a[0] = 2 - a[0]
+        d2 = dict(d1, eneL=[e + x for e, x in zip(d1["eneL"], a)],
+                  eneTL=[e + (a[inv[cls[0][0][0]]] + a[inv[cls[0][0][1]]]) // 2 for e, cls in zip(d1["eneTL"], jn)])
+        d3 = dict(d1, eneTL=[e - 3 for e in d1["eneTL"]])
+        inputs = {k: calc.interstitial_args(d) for k, d in ((1, d1), (2, d2), (3, d3))}
+        N = len(crys.basis[chem])
+        zero = np.zeros(crys.dim, dtype=int)
+        probes = []
+        for _ in range(5):
+            i, k = rng.randrange(N), rng.randrange(N)
+            R = np.array([rng.randint(-1, 1) for _ in range(crys.dim)])
+            probes.append((i, k, crys.pos2cart(R, (chem, k)) - crys.pos2cart(zero, (chem, i))))
+
+        def answers(G):
+            return [np.array([[G(i, k, x)]]) for i, k, x in probes] + [np.array(G.D)] + \
+                   [np.atleast_2d(np.asarray(G.biascorrection(), dtype=float))]
+        F = {}
+        for k in inputs:
+            G = GFcalc.GFCrystalcalc(crys, chem, sitelist, jn, 4)
+            G.SetRates(*inputs[k])
+            F[k] = answers(G)
+        start = GFcalc.GFCrystalcalc(crys, chem, sitelist, jn, 4)
+
+        def dfs(node, G, hist):
+            for dst, lab in out.get(node, []):
+                aname, args = tlc.parse_action_label(lab)
+                G2 = G
+                h2 = hist + [lab]
+                try:
+                    if aname == "SetRates":
+                        G2 = copy.deepcopy(G)
+                        G2.SetRates(*inputs[int(args[0])])
+                    elif aname == "SaveLoad":
+                        nsave[0] += 1
+                        G.addhdf5(f.create_group("g%d" % nsave[0]))
+                        G2 = GFcalc.GFCrystalcalc.loadhdf5(crys, f["g%d" % nsave[0]])
+                    elif aname == "Copy":
+                        G2 = copy.deepcopy(G)
+                    elif aname == "Eval":
+                        obs = answers(G)
+                        exp = F[nodes[dst]["expect"]]
+                        tens, asserts = {}, []
+                        for n_, (o, e) in enumerate(zip(obs, exp)):
+                            tens["obs%d" % n_], tens["F%d" % n_] = o, e
+                        for n_ in range(len(obs)):
+                            what = ("G_value" if n_ < len(probes) else "D" if n_ == len(probes) else "bias_correction")
+                            asserts.append(rel.a_zero("%s_is_function_of_last_SetRates" % what,
+                                                      [(1, "obs%d" % n_), (-1, "F%d" % n_)], 1e-9))
+                        scale = max(float(np.max(np.abs(T))) for T in tens.values()) or 1.0
+                        case = rel.make_case(v.w, {}, asserts, usegroup=False, scale=scale)
+                        case["tensors"] = {n_: rel.fxmat(np.asarray(T, dtype=float), scale) for n_, T in tens.items()}
+                        cases.append(case)
+                        kinds = sorted({tlc.parse_action_label(x)[0] for x in hist})
+                        metas.append(("gfobj|%s|%s#%s" % (name, "+".join(kinds), h2), "GF object history %s on %s" % (h2, name),
+                                      {"world": name, "history": h2}, len(hist) > 1))
+                except Exception as ex:      # noqa: BLE001
+                    ctx.case("gfobj|%s|%s" % (name, h2))
+                    ctx.violation("gfobj-raise|%s|%s|%s" % (name, aname, type(ex).__name__),
+                                  "GF object history %s on %s: %s raised %s: %s" % (hist, name, lab, type(ex).__name__, ex),
+                                  {"world": name, "history": h2})
+                    continue
+                dfs(dst, G2, h2)
+        dfs(root, start, [])
+    f.close()
